@@ -108,17 +108,17 @@ theorem finTask_done_post (c c' : Ctx) (wr : Bool) (hk : c.wlSeen = true)
 
 /-! ### C04 (stable half): a step that replaces every stable pod -/
 
-/-- **C04 (stable half)** — for every rollout, step and context: when a canary step with traffic whose
+/-- **C04 (stable half)** — for every partition-style rollout, step and context: when a canary step with traffic whose
     replicas cover the whole workload leaves `StepInit` (the batch is handed to the BatchRelease), the
     stable Service exists un-pinned — for the first step as well.  (Outside known finding noRevKey.) -/
 theorem initStep_full_unpins (ro : Rollout) (step : Step) (c c' : Ctx) (err : Bool)
-    (hstyle : ro.style = .canary) (htr : stepHasTraffic step = true) (hro : c.ro = ro) (hhas : ro.hasTraffic = true)
-    (hseen : c.wlSeen = true) (hinit : c.sub.state = .init)
+    (hstyle : ro.style = .canary) (hreal : ro.realPartition = true) (htr : stepHasTraffic step = true) (hro : c.ro = ro)
+    (hhas : ro.hasTraffic = true) (hseen : c.wlSeen = true) (hinit : c.sub.state = .init)
     (hfull : scaledV step.replicas c.wl.replicas true ≥ c.wl.replicas)
     (h : initStep ro step c = .ok c' err) (hleft : c'.sub.state ≠ .init) :
     c'.net.stableExists = true → c'.net.stableSel.getD "" = "" := by
   unfold initStep at h
-  simp only [hstyle, if_true, htr, not_true_eq_false, if_false, hfull] at h
+  simp only [hstyle, if_true, htr, not_true_eq_false, if_false, hfull, hreal, and_self] at h
   obtain ⟨c1, rt, e, hcall, hcase⟩ := afterRetryCall_spec _ _ _ _ h
   have hsub := callTM_sub _ _ _ _ _ _ hcall
   rcases hcase with ⟨hc, _⟩ | ⟨hc, _⟩ | ⟨he, hrt, hk⟩
